@@ -1,4 +1,5 @@
 import Gedcom.Model.Ident
+import Gedcom.Model.CopyDoc
 import Driver.Util
 import Driver.Tree
 namespace Driver
@@ -9,6 +10,34 @@ def showHexList (l : List Str) : String :=
 
 /-- the `k`-th node of a tree in preorder -/
 def preorderIds (t : INode) : List Nat := t.ids
+
+mutual
+/-- the node with object id `k` -/
+def findId (k : Nat) : INode → Option INode
+  | .mk i t v p ks => if i == k then some (.mk i t v p ks) else findIdList k ks
+def findIdList (k : Nat) : List INode → Option INode
+  | [] => none
+  | n :: ns => match findId k n with | some x => some x | none => findIdList k ns
+end
+
+/-- a forest of at most one tree = an optional node (nil) -/
+def parseOpt (toks : List String) : Option (Option Node × List String) :=
+  match parseForest toks with
+  | some ([], rest) => some (none, rest)
+  | some ([t], rest) => some (some t, rest)
+  | _ => none
+
+def parseOpts : Nat → List String → Option (List (Option Node) × List String)
+  | 0, toks => some ([], toks)
+  | k + 1, toks => do
+    let (a, rest) ← parseOpt toks
+    let (as, rest) ← parseOpts k rest
+    pure (a :: as, rest)
+
+def parseOptList (toks : List String) : Option (List (Option Node) × List String) :=
+  match toks with
+  | n :: rest => do let n ← n.toNat?; parseOpts n rest
+  | [] => none
 
 /-- requests about node equality and deep copies (C07) -/
 def handleEqual (cmd : String) (rest : List String) : Option String :=
@@ -68,6 +97,63 @@ def handleEqual (cmd : String) (rest : List String) : Option String :=
           | some m =>
             some s!"{toHex (render (some 0) (applyMut m src).erase)} {toHex (render (some 0) (applyMut m c).erase)}"
       | _, _ => some "bad-op"
+    | _ => some "bad-op"
+  | "copyd" =>
+    -- copyd <same 0|1> <ctx -|k> <k> <forest = records of the source document>
+    --   objects of the document are numbered 0.. in preorder; copy object k into the same document
+    --   (same=1) or into an empty one; ctx = the family (an object of the document) that the first
+    --   role node not below a FAM belongs to
+    match rest with
+    | same :: ctx :: k :: more =>
+      match parseForest more, k.toNat? with
+      | some (f, []), some k =>
+        let lab := labelList 0 f
+        let recs := lab.1
+        let n := lab.2
+        match findIdList k recs with
+        | none => some "bad-op"
+        | some t =>
+          let ctx' : Option (Nat × Str) :=
+            match ctx.toNat? with
+            | some c => (findIdList c recs).map fun x => (c, x.ptr)
+            | none => none
+          let dst : Doc := if same == "1" then recs else []
+          match copyIntoDoc ctx' dst n t with
+          | none => some "panic"
+          | some r =>
+            let added := r.doc.drop dst.length
+            let fresh := r.copy.ids.all fun i => decide (n ≤ i)
+            let prefixOK := (r.doc.take dst.length).map (·.id) == dst.map (·.id)
+            let look := r.famAdds.filter (fun p => !p.isEmpty) |>.map fun p =>
+              match r.doc.lookup p with
+              | some i => b2s (decide (n ≤ i))
+              | none => "?"
+            some s!"ok fresh={b2s fresh} prefix={b2s prefixOK} added={showForest (added.map (·.erase))} redirected={String.join look} copy={showNode r.copy.erase}"
+      | _, _ => some "bad-op"
+    | _ => some "bad-op"
+  | "deqo" =>
+    -- deqo <forest of 0|1> <forest of 0|1> : DeepEqual where either side may be nil
+    match parseOpt rest with
+    | some (a, rest') =>
+      match parseOpt rest' with
+      | some (b, []) => some (b2s (deepEqualOpt a b))
+      | _ => some "bad-op"
+    | none => some "bad-op"
+  | "deqno" =>
+    -- deqno <n> (<forest of 0|1>)^n <m> (<forest of 0|1>)^m : DeepEqualNodes with nil elements
+    match parseOptList rest with
+    | some (l, rest') =>
+      match parseOptList rest' with
+      | some (r, []) => some (b2s (deepEqualNodesOpt l r))
+      | _ => some "bad-op"
+    | none => some "bad-op"
+  | "copynil" =>
+    -- copynil <forest of one tree> : DeepCopy(node, nil)
+    match parseForest rest with
+    | some ([t], []) =>
+      let src := (labelNode 0 t).1
+      if copyNilDocPanics src then some "panic"
+      else some s!"ok {toHex (render (some 0) (copyTree (labelNode 0 t).2 src).1.erase)}"
     | _ => some "bad-op"
   | _ => none
 
